@@ -34,5 +34,8 @@ Outcomes(st, o) ==
 
 Obs(st, U) == [items |-> st, len |-> Len(st),
                get |-> [a \in 1..U |-> IF a \in Dom(Rel(st)) THEN <<(CHOOSE p \in Rel(st) : p[1] = a)[2]>> ELSE <<>>],
-               eq_same_dict |-> TRUE, is_dict |-> TRUE]
+               eq_same_dict |-> TRUE, is_dict |-> TRUE,
+               (* asked of every object after every step (so derived objects come from sources whose hash - or hash *)
+               (* error - has already been worked out once): hashable exactly when no value is unhashable            *)
+               hashable |-> Hashable(st)]
 =============================================================================
